@@ -11,7 +11,7 @@ ninja -C $wt/_b -j8 > $sd/build_changed.log 2>&1; echo "build(changed) rc=$?"
 ctest --test-dir $wt/_b -j6 --timeout 900 > $sd/ctest_changed.log 2>&1; echo "ctest(changed) rc=$?"; tail -4 $sd/ctest_changed.log
 build_demo() { g++ -std=c++17 -I$wt/src -I$wt/_b/src -I/usr/include/eigen3 $sd/demo.cpp -L$wt/_b/src/ompl -lompl -Wl,-rpath,$wt/_b/src/ompl -lpthread -lboost_serialization -lboost_system -o $sd/demo_bin; }
 build_demo; $sd/demo_bin > $sd/demo_changed.out 2>&1; echo "demo(changed) rc=$?"; tail -3 $sd/demo_changed.out
-git -C $wt stash -q
+git -C $wt diff > $sd/confirm_patch.diff; git -C $wt checkout -- .   # (not git stash: the stash is shared between worktrees)
 ninja -C $wt/_b -j8 ompl > $sd/build_orig.log 2>&1; echo "build(orig) rc=$?"
 build_demo; $sd/demo_bin > $sd/demo_orig.out 2>&1; echo "demo(orig) rc=$?"; tail -3 $sd/demo_orig.out
-git -C $wt stash pop -q
+git -C $wt apply $sd/confirm_patch.diff
